@@ -50,6 +50,9 @@ func safely(f func() string) (out string) {
 
 var lastPanic string
 
+// multipass: most sequences are ranged over several times (C14 legs)
+var multipass bool
+
 func renderKVs(xs []kv) string {
 	if len(xs) == 0 {
 		return "-"
@@ -363,7 +366,38 @@ func (h *history) probeKey() string {
 	return u.probe(h.r, h.order)
 }
 
+// equivalentSpelling returns a different byte string that the collator cannot tell from `lit` (canonically
+// equivalent spelling, or an ignorable code point inserted), if it can make one
+func equivalentSpelling(r *rand.Rand, lit string) (string, bool) {
+	s := string(unhex(lit))
+	decomp := map[rune]string{'é': "e\u0301", 'è': "e\u0300", 'ê': "e\u0302", 'ë': "e\u0308", 'ö': "o\u0308", 'ü': "u\u0308",
+		'ñ': "n\u0303", 'å': "a\u030a", 'ä': "a\u0308", 'É': "E\u0301", 'Ö': "O\u0308", 'ô': "o\u0302", 'ά': "α\u0301"}
+	var sb strings.Builder
+	changed := false
+	for _, c := range s {
+		if d, ok := decomp[c]; ok && !changed {
+			sb.WriteString(d)
+			changed = true
+			continue
+		}
+		sb.WriteRune(c)
+	}
+	if !changed {
+		rs := []rune(s)
+		i := r.Intn(len(rs) + 1)
+		out := string(rs[:i]) + "\u00ad" + string(rs[i:]) // soft hyphen: ignorable
+		return hexLit([]byte(out)), true
+	}
+	return hexLit([]byte(sb.String())), true
+}
+
 func (h *history) anyKey() string {
+	if h.cfg.collName != "" && len(h.order) > 0 && h.r.Intn(6) == 0 {
+		if e, ok := equivalentSpelling(h.r, pick(h.r, h.order)); ok {
+			h.s.tr.stats["coll-equivalent-spelling-probes"]++
+			return e
+		}
+	}
 	switch {
 	case len(h.order) > 0 && h.r.Intn(2) == 0:
 		return pick(h.r, h.order)
@@ -437,10 +471,77 @@ func (h *history) stopPasses() (string, string) {
 		stop = 1 + h.r.Intn(len(h.order)+2)
 	}
 	passes := 1
-	if h.r.Intn(4) == 0 {
+	if h.r.Intn(4) == 0 || (multipass && h.r.Intn(4) != 0) {
 		passes = 2 + h.r.Intn(2)
 	}
 	return strconv.Itoa(stop), strconv.Itoa(passes)
+}
+
+// alignedRange: bounds that start to differ exactly at a byte (field) boundary of a stored key – "everything
+// below this prefix", "all tuples with these leading fields"
+func (h *history) alignedRange() (string, string, bool) {
+	if len(h.order) == 0 {
+		return "", "", false
+	}
+	r := h.r
+	k := pick(r, h.order)
+	loHi := func(f string, w int) (string, string) {
+		switch f[0] {
+		case 'u':
+			return bitsLit(0, w), bitsLit(maskW(w), w)
+		case 'i':
+			return bitsLit(uint64(1)<<uint(w-1), w), bitsLit(maskW(w)>>1, w)
+		}
+		if w == 32 {
+			return "ff800000", "7f800000"
+		}
+		return "fff0000000000000", "7ff0000000000000"
+	}
+	switch {
+	case h.cfg.alpha:
+		b := unhex(k)
+		if len(b) == 0 {
+			return "", "", false
+		}
+		p := b[:1+r.Intn(len(b))]
+		return hexLit(p), hexLit(append(append([]byte{}, p...), 0xff, 0xff)), true
+	case h.cfg.numTy != "":
+		ty := h.cfg.numTy
+		if ty == "f32" || ty == "f64" || k == "nan" {
+			return "", "", false
+		}
+		w := widthOf(ty)
+		if w == 8 {
+			return "", "", false
+		}
+		v := parseBits(k, w)
+		m := maskW(8 * (1 + r.Intn(w/8-1)))
+		// byte-aligned block around a stored value, in the order of the encoding (two's complement blocks are
+		// contiguous for signed types as well)
+		return bitsLit(v&^m, w), bitsLit(v|m, w), true
+	case strings.HasPrefix(h.cfg.spec, "comp"):
+		fields := strings.Split(strings.Fields(h.cfg.spec)[1], ",")
+		parts := strings.Split(k, ",")
+		if len(fields) < 2 {
+			return "", "", false
+		}
+		cut := 1 + r.Intn(len(fields)-1)
+		lo, hi := append([]string{}, parts...), append([]string{}, parts...)
+		for i := cut; i < len(fields); i++ {
+			if fields[i] == "s" {
+				lo[i], hi[i] = "-", "ffff"
+				continue
+			}
+			lo[i], hi[i] = loHi(fields[i], widthOf(fields[i]))
+		}
+		for i := 0; i < cut; i++ {
+			if parts[i] == "nan" {
+				return "", "", false
+			}
+		}
+		return strings.Join(lo, ","), strings.Join(hi, ","), true
+	}
+	return "", "", false
 }
 
 // kArg: a count for TopK/BottomK: around the size, 0, and "everything" written as a huge unsigned number
@@ -502,6 +603,13 @@ func (h *history) query() {
 		if r.Intn(8) == 0 {
 			b = a
 		}
+		if x, y, ok := h.alignedRange(); ok && r.Intn(3) == 0 {
+			a, b = x, y
+			if r.Intn(2) == 0 {
+				a, b = b, a
+			}
+			h.s.tr.stats["aligned-ranges"]++
+		}
 		if h.cfg.alpha && b == "-" {
 			// an empty end bound means "open end" for byte strings; covered by rangeopen
 			return
@@ -555,9 +663,43 @@ func (h *history) query() {
 	}
 }
 
+// singletonDance: the tree holds no key or exactly one; every branch that treats the root leaf specially is taken
+// with queries interleaved (which must not matter)
+func (h *history) singletonDance() {
+	if h.s.dead[h.id] {
+		return
+	}
+	k := h.genKey()
+	if h.cfg.collName != "" {
+		for _, p := range h.order {
+			if collCompare(h.cfg.collName, p, k) == 0 {
+				return
+			}
+		}
+	}
+	h.insert(k)
+	h.s.exec("get", h.id, k)
+	h.s.exec("min", h.id)
+	h.remove(k)
+	h.s.exec("size", h.id)
+	h.insert(k)
+	h.s.exec("get", h.id, k)
+	h.s.exec("seq", h.id, "all", "0", "2")
+	h.s.exec("size", h.id)
+	h.remove(k)
+	h.remove(k)
+	h.s.exec("dump", h.id)
+	h.insert(k)
+	h.s.exec("size", h.id)
+	h.s.tr.stats["singleton-dances"]++
+}
+
 func (h *history) run() {
 	r := h.r
 	ops := h.cfg.ops
+	if len(h.order) == 0 {
+		h.singletonDance()
+	}
 	phaseLeft := 0
 	phase := "grow"
 	for i := 0; i < ops && !h.s.dead[h.id]; i++ {
@@ -643,6 +785,7 @@ func (h *history) run() {
 				}
 			}
 			h.feat["drained"] = true
+			h.singletonDance()
 			for j := 0; j < 6; j++ {
 				h.insert(h.genKey())
 			}
@@ -667,6 +810,11 @@ func fanKeys(spec string, r *rand.Rand) func(b int) string {
 			}
 			return hexLit(append(append([]byte(pre), byte(b)), tail...))
 		}
+	case "coll":
+		// neighbouring characters of one script in one position: sort keys that branch widely at one depth
+		base := pick(r, []rune{0x4E00, 0x0400, 0x3040, 0xAC00, 0x0100})
+		pre := pick(r, []string{"", "a", "语"})
+		return func(b int) string { return hexLit([]byte(pre + string(base+rune(b)))) }
 	case "num":
 		ty := f[1]
 		if ty == "f32" || ty == "f64" {
